@@ -116,7 +116,8 @@ Definition join_comma := join 44.
    double slash would make an empty element, so they need no clause of their own. *)
 Record valid_path_gen (velem : pkind -> str -> Prop) (k : pkind) (p : str) : Prop := {
   vp_utf8 : valid p = true;     (* implied by ve_chars (U+FFFD is not allowed); kept explicit *)
-  vp_elems : exists elems, elems <> [] /\ join_slash elems = p /\ Forall (velem k) elems;
+  vp_elems : exists elems, elems <> [] /\ Forall (fun e => ~ In 47 e) elems /\
+                           join_slash elems = p /\ Forall (velem k) elems;
   (* D3, implemented only *)
   vp_no_leading_dash : k <> PFile -> ~ exists a, p = 45 :: a
 }.
